@@ -135,6 +135,100 @@ def make_e_partial(params, part, nparts):
 
 
 # ---------------------------------------------------------------------------
+# E tier: a mutation made *during* a lookup, from the point where the lookup calls out into a required specification
+# (its subscribe(): the lookup registers itself as a dependent of every specification it was asked about)
+# ---------------------------------------------------------------------------
+
+DU_ENTRY = ['lookup', 'lookupAll', 'names', 'subscriptions', 'lookup1', 'lookup(named)']
+DU_MUT = ["register([IR], IP, 'b', 'B')", "register([IR], IP, '', 'NEW')", "subscribe([IR], IP, 's2')", "unregister([IR], IP, 'a')",
+          "register([IRsub], IP, 'a', 'A2')  (more specific)"]
+
+
+def run_during(flavour, entry, mut, warm_other):
+    from zope.interface import Interface
+    from zope.interface.adapter import AdapterRegistry, VerifyingAdapterRegistry
+    from zope.interface.interface import InterfaceClass
+    R = AdapterRegistry if flavour == 'adapter' else VerifyingAdapterRegistry
+
+    def build(armed):
+        st = dict(armed=armed)
+
+        class Hooked(InterfaceClass):
+            def subscribe(self, dependent):
+                InterfaceClass.subscribe(self, dependent)
+                if st['armed']:
+                    st['armed'] = False
+                    mutate(st)
+        mod = 'vp_during'
+        st['IR'] = InterfaceClass('IR', (Interface,), {}, __module__=mod)
+        st['IRsub'] = Hooked('IRsub', (st['IR'],), {}, __module__=mod)
+        st['IP'] = InterfaceClass('IP', (Interface,), {}, __module__=mod)
+        st['IQ'] = InterfaceClass('IQ', (Interface,), {}, __module__=mod)
+        reg = st['reg'] = R()
+        reg.register([st['IR']], st['IP'], 'a', 'A')
+        reg.register([st['IR']], st['IP'], '', 'OLD')
+        reg.subscribe([st['IR']], st['IP'], 's1')
+        return st
+
+    def mutate(st):
+        reg = st['reg']
+        if mut == 0:
+            reg.register([st['IR']], st['IP'], 'b', 'B')
+        elif mut == 1:
+            reg.register([st['IR']], st['IP'], '', 'NEW')
+        elif mut == 2:
+            reg.subscribe([st['IR']], st['IP'], 's2')
+        elif mut == 3:
+            reg.unregister([st['IR']], st['IP'], 'a')
+        else:
+            reg.register([st['IRsub']], st['IP'], 'a', 'A2')
+
+    def call(st):
+        reg, spec, IP = st['reg'], st['IRsub'], st['IP']
+        e = DU_ENTRY[entry]
+        if e == 'lookup':
+            return reg.lookup([spec], IP, '')
+        if e == 'lookupAll':
+            return sorted(reg.lookupAll([spec], IP))
+        if e == 'names':
+            return sorted(reg.names([spec], IP))
+        if e == 'subscriptions':
+            return list(reg.subscriptions([spec], IP))
+        if e == 'lookup1':
+            return reg.lookup1(spec, IP, '')
+        return reg.lookup([spec], IP, 'a')
+    before = call(build(False))
+    cold = build(False)
+    mutate(cold)
+    after = call(cold)
+    st = build(True)
+    if warm_other:
+        st['armed'] = False
+        st['reg'].lookup([st['IR']], st['IQ'], '')      # caches exist, for another key and another specification
+        st['armed'] = True
+    first = call(st)
+    if st['armed']:
+        return False             # the call-out point was not reached
+    second = call(st)
+    what = '%s: %s of a specification whose subscribe() runs %s while the lookup is in progress' % (flavour, DU_ENTRY[entry], DU_MUT[mut])
+    if first != before and first != after:
+        raise Violation('%s: answers %r, before the mutation the answer is %r, after it %r' % (what, first, before, after), signature='C05:during:first')
+    if second != after:
+        raise Violation('%s: the same call repeated afterwards answers %r; a registry without earlier lookups answers %r' % (what, second, after),
+                        signature='C05:during:stale:%s' % DU_ENTRY[entry])
+    return True
+
+
+def make_e_during(params, part, nparts):
+    def h(f: int, e: int, m: int, w: int):
+        case = (('adapter', 'verifying')[pick(f, 2)], pick(e, len(DU_ENTRY)), pick(m, len(DU_MUT)), pick(w, 2))
+        ok = native(run_during, *case)
+        assume(ok)
+        reached(case, dict(flavour=case[0], entry=DU_ENTRY[case[1]], mutation=DU_MUT[case[2]], other_key_cached=bool(case[3])))
+    return h
+
+
+# ---------------------------------------------------------------------------
 # S tier (inductive): the real LookupBaseFallback cache layer, one step from an
 # arbitrary cache state satisfying Inv
 # ---------------------------------------------------------------------------
@@ -389,6 +483,13 @@ HARNESSES = [
             tiers=dict(quick=dict(budget_s=100, parts=8, impls=('py',), params=dict(flavour='verifying', w1=3)),
                        thorough=dict(budget_s=300, parts=8, params=dict(flavour='verifying'))), encoded=_ENC,
             bounds='as e_partial_adapter for VerifyingAdapterRegistry', oracle='as e_partial_adapter'),
+    Harness('e_during', make_e_during, kind='E', impls=('py', 'c'),
+            tiers=dict(quick=dict(budget_s=30, parts=1), thorough=dict(budget_s=60, parts=1)), encoded=_ENC,
+            bounds='both flavours x 6 entry points x 5 mutations made from inside the looked-up specification\'s subscribe() (the point at '
+                   'which every lookup calls out into specification code) x caches empty / holding another key; both builds',
+            outside='mutations from other call-out points of a lookup (C11 covers those for atomicity)',
+            oracle='the interrupted call answers the before- or the after-value; the same call repeated answers what a registry without '
+                   'earlier lookups answers'),
     Harness('s_cache_step', make_s_cache_step, kind='S', impls=('py',),
             tiers=dict(quick=dict(budget_s=90, parts=10, ppt=30, params=dict(keys=2)),
                        thorough=dict(budget_s=600, parts=10, ppt=60, params=dict(keys=2))),
